@@ -12,10 +12,10 @@ ID = "C16"
 LEVEL = "exploration"
 EXAMPLES = {"quick": 800, "thorough": 16000}
 RULE = ("Generated: (pinned) a scaled asset with min_scale = max_scale = s over a base Storage (size, rates, levels, "
-        "inflow, efficiency, costs), SimpleContract (one- and two-sided, positive min_cap), Contract with takes or "
-        "Transport, normalisation S in {0.5,1,2}, fixed-cost rate, own window, with companions and market pairs; "
+        "inflow, efficiency, costs), SimpleContract (one- and two-sided, positive min_cap), Contract with takes, Transport, "
+        "ExtendedTransport with takes, MultiCommodityContract or OrderBook (partial execution; order capacities x s/S), normalisation S in {0.5,1,2}, fixed-cost rate, own window, with companions and market pairs; "
         "(free) the same with min_scale < max_scale; (structured) a sub-portfolio of 2-5 assets with internal and "
-        "external nodes wrapped as StructuredAsset (own window in 30%) next to outside assets. Oracle: (pinned) "
+        "external nodes wrapped as StructuredAsset (own window in 30%; in a quarter with a second structured asset inside it, attached to an internal or the external node) next to outside assets. Oracle: (pinned) "
         "V = V(base with every volume/rate parameter x s/S) - s x rate x sum dt(active window) and the scaled "
         "solution transferred to that plain portfolio is feasible and optimal; (free) V_free >= V(s_i) for s_i at "
         "min, max and two interior points, V_free = V(s*) for the returned scale s* within [min,max]; (structured) "
@@ -42,6 +42,8 @@ def scaled_base(a, f):
     for k in ("min_take", "max_take"):
         if b.get(k):
             b[k] = [[s, e, v * f] for (s, e, v) in b[k]]
+    if b["type"] == "orderbook":
+        b["orders"] = [[o[0], o[1], o[2] * f, o[3]] for o in b["orders"]]
     return b
 
 
@@ -52,10 +54,13 @@ def _scaled(draw, free):
     nodes = ["n%d" % i for i in range(nn)]
     prices = {"p0": draw(gen.price_series(g["T"])), "p1": draw(gen.price_series(g["T"]))}
     cx = gen.Cx(g, nodes, prices)
-    cls = draw(st.sampled_from(["storage", "storage", "simple", "simple", "contract", "transport"]))
-    if cls == "transport" and nn < 2:
+    cls = draw(st.sampled_from(["storage", "storage", "simple", "simple", "contract", "transport", "multi", "exttransport",
+                                "orderbook"]))
+    if cls in ("transport", "exttransport") and nn < 2:
         cx.nodes.append("n1")
-    a = gen.a_scaled(draw, cx, "sc", base_cls=cls)
+    a = gen.a_scaled(draw, cx, "sc", base_cls="transport" if cls == "exttransport" else cls)
+    if cls == "exttransport":
+        a["base"] = gen.a_transport(draw, cx, "sc_base", ext=True)
     base = a["base"]
     if base["type"] == "storage":
         base["price"] = None
@@ -94,12 +99,19 @@ def _structured(draw):
     prices = {"p0": draw(gen.price_series(g["T"])), "p1": draw(gen.price_series(g["T"]))}
     cx = gen.Cx(g, nodes, prices)
     s = gen.a_structured(draw, cx, "st", with_window=True)
-    for x in s["assets"]:
+    if draw(st.integers(0, 3)) == 0:
+        # a structured asset inside the structured asset, attached to one of the outer one's nodes
+        inner_nodes = [n for x in s["assets"] for n in x["nodes"] if n not in s["nodes"]]
+        at = draw(st.sampled_from(sorted(set(inner_nodes)) + s["nodes"]))
+        s2 = gen.a_structured(draw, gen.Cx(g, [at], cx.prices), "st_in", with_window=True)
+        s["assets"].append(s2)
+    for x in leaves(s):
         if x["type"] == "storage":
             x["price"] = None
         if x.get("min_take") or x.get("max_take"):
             x["start"] = x["end"] = None
-            if s.get("start") is not None or s.get("end") is not None:
+            if s.get("start") is not None or s.get("end") is not None or any(
+                    y["type"] == "structured" and (y.get("start") is not None or y.get("end") is not None) for y in s["assets"]):
                 x["min_take"] = x["max_take"] = None
     assets = [s]
     for i in range(draw(st.integers(0, 2))):
@@ -164,6 +176,8 @@ def check_scaled(spec, out):
     V = float(res.value)
     mp = r.op.mapping
     row = mp[(mp["asset"] == sa["name"]) & (mp["var_name"] == "scale")]
+    if len(row) == 0 and not (mp["asset"] == sa["name"]).any():
+        return out.drop("base_inactive")       # nothing of the base lies in the horizon: nothing to scale (documented)
     if len(row) != 1:
         return out.fail("no unique scale variable in the mapping")
     sstar = float(res.x[int(row.index[0])])
@@ -193,6 +207,12 @@ def check_scaled(spec, out):
                 out.fail("scale %g/%g pinned: value %.9g, plain base with parameters x s/S gives %.9g - fixed cost %.9g = %.9g"
                          % (s, sa["norm_scale"], V, float(res2.value), fixed, Vs))
             x2, missing, unused, _ = transfer.transfer(r.op, np.asarray(res.x, float), r2.op)
+            if sa["base"]["type"] == "orderbook" and not missing and s:
+                # an order's variable is the executed fraction of its capacity: fraction x of capacity C x s/S in the
+                # plain book = fraction x s/S of capacity C in the scaled one
+                m2 = r2.op.mapping
+                ii = m2.index[m2["asset"] == sa["name"]].unique().values.astype(int)
+                x2[ii] = x2[ii] / (s / sa["norm_scale"])
             if missing:
                 out.fail("variables of the plain portfolio without counterpart in the scaled problem: %s" % missing[:3])
             else:
@@ -208,20 +228,38 @@ def check_scaled(spec, out):
     out.nontrivial = active and (abs(f - 1) > 1e-9 or sa["fix_costs"] != 0)
 
 
+def leaves(a, clip=False, start=None, end=None):
+    """the plain assets inside a structured asset (recursively); with clip=True copies whose windows are cut to the
+    windows of all wrappers around them"""
+    out = []
+    if clip:
+        if a.get("start") is not None:
+            start = a["start"] if start is None else max(start, a["start"])
+        if a.get("end") is not None:
+            end = a["end"] if end is None else min(end, a["end"])
+    for x in a["assets"]:
+        if x["type"] == "structured":
+            out += leaves(x, clip, start, end)
+        elif clip:
+            x = copy.deepcopy(x)
+            if start is not None:
+                x["start"] = start if x.get("start") is None else max(x["start"], start)
+            if end is not None:
+                x["end"] = end if x.get("end") is None else min(x["end"], end)
+            out.append(x)
+        else:
+            out.append(x)
+    return out
+
+
 def flat_version(spec):
     s2 = copy.deepcopy(spec)
     new = []
     for a in s2["assets"]:
         if a["type"] != "structured":
             new.append(a)
-            continue
-        for x in a["assets"]:
-            x = copy.deepcopy(x)
-            if a.get("start") is not None:
-                x["start"] = a["start"] if x.get("start") is None else max(x["start"], a["start"])
-            if a.get("end") is not None:
-                x["end"] = a["end"] if x.get("end") is None else min(x["end"], a["end"])
-            new.append(x)
+        else:
+            new += leaves(a, clip=True)
     s2["assets"] = new
     return s2
 
@@ -246,22 +284,27 @@ def check_structured(spec, out):
     if abs(V - Vf) > tol:
         out.fail("structured asset: optimum %.9g, flat portfolio of the same assets: %.9g" % (V, Vf))
     name = st_["name"]
-    inner = [x["name"] for x in st_["assets"]]
+    nested = any(x["type"] == "structured" for x in st_["assets"])
+    out.label("nested" if nested else None)
 
     def to_flat(k):
         asset, var, node, t = k
         if asset != name or var is None:
             return k
-        cands = [n for n in inner if var.endswith("__" + n)]
-        if not cands:
-            return k
-        ia = max(cands, key=len)
-        v0 = var[:-(len(ia) + 2)]
-        n0 = node
-        pref = name + "_internal_"
-        if node is not None and node.startswith(pref):
-            n0 = node[len(pref):]
-        return (ia, v0, n0, t)
+        # '<variable>__<inner asset>[__<inner structured asset>...]' and '<wrapper>_internal_<node>' per level
+        level, v0, n0 = st_, var, node
+        while True:
+            cands = [x for x in level["assets"] if v0.endswith("__" + x["name"])]
+            if not cands:
+                return k
+            child = max(cands, key=lambda x: len(x["name"]))
+            v0 = v0[:-(len(child["name"]) + 2)]
+            pref = level["name"] + "_internal_"
+            if n0 is not None and n0.startswith(pref):
+                n0 = n0[len(pref):]
+            if child["type"] != "structured":
+                return (child["name"], v0, n0, t)
+            level = child
     xf, missing, unused, _ = transfer.transfer(r.op, np.asarray(res.x, float), rf.op, rename=to_flat)
     if missing:
         out.fail("variables of the flat portfolio without counterpart in the structured problem: %s" % missing[:3])
@@ -284,14 +327,14 @@ def check_structured(spec, out):
             if is_err(oo):
                 break
             tot = np.zeros(len(ext))
-            for x in st_["assets"]:
+            for x in leaves(st_):
                 if n in x["nodes"]:
                     c2 = build.disp_col(sf, x["name"], n)
                     if c2 in oo["dispatch"].columns:
                         tot += oo["dispatch"][c2].values.astype(float)
             if np.abs(ext - tot).max(initial=0) > 1e-5 * (1 + np.abs(tot).max(initial=0)):
                 out.fail("external dispatch of the structured asset at node %s %s != sum of its inner assets' dispatch %s" % (n, ext, tot))
-            for x in st_["assets"]:
+            for x in leaves(st_):
                 for nn_ in x["nodes"]:
                     if nn_ not in st_["nodes"]:
                         c2 = build.disp_col(sf, x["name"], nn_)
